@@ -138,6 +138,8 @@ def run(F, chk):
             else:
                 W1.violation(('timestamp-presence', name), 'the timestamp is not written conditionally on standard_header.has_timestamp(): its presence would not survive export', where=b.loc(None))
     check_endian_bit(F, W1)
+    W4 = chk.rule('W4', 'the writer chain refuses a message (locally constructed error) only if its total length cannot be represented in the 16-bit length field (> 65535)')
+    check_refusals(F, W4)
     check_time_split(F, W2)
     check_convert(F, W3)
 
@@ -245,3 +247,46 @@ def check_convert(F, W3):
                     continue
                 W3.violation(('other-file-writer', b.path, p), 'convert passes the output file to %s at %s: the exported file must only be written through DltMessage::to_write' % (p, b.loc(blk.term.sp)), where=b.loc(blk.term.sp))
     W3.floor('DltMessage::to_write call sites in convert', n, 1)
+
+
+def check_refusals(F, W4):
+    """every message parsed from a well-formed stream has a total length <= 65535, so a writer may only construct its own
+    error under a condition that implies total > 65535; any other refusal loses messages on export."""
+    n_fns = 0
+    for name in WRITERS:
+        b = F.get(name)
+        if b is None or not b.ret_type().startswith('std::result::Result<'):
+            continue
+        n_fns += 1
+        W4.fn(name)
+        cfg = CFG(b)
+        E = ExprBuilder(cfg, fold_named=True)
+        refusals = 0
+        for blk in b.blocks:
+            if blk.cleanup:
+                continue
+            for s in blk.stmts:
+                if s.k == 'assign' and s.place.is_local and s.place.l == 0 and s.rv['k'] == 'agg' and s.rv.get('variant') == 'Err':
+                    refusals += 1
+                    W4.sites += 1
+                    ok = False
+                    conds = []
+                    for (c, truth, D) in guards.known(cfg, E, blk.i):
+                        if truth is True and isinstance(c, tuple) and c[0] == 'bin':
+                            conds.append(show(c)[:80])
+                            k3, k2 = hdrtab.fold(c[3]), hdrtab.fold(c[2])
+                            if c[1] == 'Gt' and k3 is not None and k3 >= 65535:
+                                ok = True
+                            if c[1] == 'Ge' and k3 is not None and k3 >= 65536:
+                                ok = True
+                            if c[1] == 'Lt' and k2 is not None and k2 >= 65535:
+                                ok = True
+                            if c[1] == 'Le' and k2 is not None and k2 >= 65536:
+                                ok = True
+                    if ok:
+                        W4.ok(sample={'writer': name, 'refusal_at': b.loc(s.sp), 'only_if': 'total length > 65535'})
+                    else:
+                        W4.violation(('writer-refuses', name), '%s constructs its own error at %s under conditions %s: a message that fits the 16-bit length field (total <= 65535) can be refused, so an export is no longer complete' % (name, b.loc(s.sp), conds[:3]), where=b.loc(s.sp))
+        if refusals == 0:
+            W4.ok(sample={'writer': name, 'locally_constructed_errors': 0, 'errors': 'only propagated from the underlying writer'})
+    W4.floor('writer functions returning Result', n_fns, 4)
